@@ -154,6 +154,13 @@ def run(ctx, rep):
                     t = facts.api['types'][f['ty']]
                     if t['k'] == 'array':
                         buf = t.get('len')
+                        if buf is None:
+                            import re
+                            m = re.search(r';\s*([A-Za-z_][A-Za-z0-9_:]*)\]$', t['s'])
+                            if m:
+                                for cn, cv in facts.consts.items():
+                                    if cn.endswith('::' + m.group(1).split('::')[-1]):
+                                        buf = cv['val']
         maxlen = facts.consts.get('fatfs::dir::MAX_LONG_NAME_LEN', {}).get('val')
         maxent = facts.consts.get('fatfs::dir::MAX_LONG_DIR_ENTRIES', {}).get('val')
         part = facts.consts.get('fatfs::dir_entry::LFN_PART_LEN', {}).get('val')
